@@ -160,6 +160,23 @@ class Event(T):
     """asyncio.Event with symbolic flag."""
 
 
+class OrUnbound(T):
+    """loop_locals only: a local that is first assigned inside the loop body.  At the loop head it is either still
+    unbound or holds a value of type t (the havoc splits the path); an invariant that names it receives UNBOUND in
+    the first case, so that it can state when the local is certainly bound (`x is not UNBOUND`)."""
+
+    def __init__(self, t):
+        self.t = t
+
+
+class _Unbound:
+    def __repr__(self):
+        return 'UNBOUND'
+
+
+UNBOUND = _Unbound()
+
+
 # ---------------------------------------------------------------------------
 # registry
 # ---------------------------------------------------------------------------
@@ -355,3 +372,8 @@ def ufb(name, n, *args):
 def fresh_int():
     """ghost havoc (only meaningful symbolically)."""
     return 0
+
+
+def bound(x):
+    """loop invariants: the local declared OrUnbound(..) has been assigned"""
+    return not isinstance(x, _Unbound)
